@@ -52,14 +52,17 @@ def main():
 
     def run_demo():
         if demo == "demo.rs":
-            shutil.copy(f"{mutdir}/demo.rs", f"{wt}/abasic-core/tests/{demo_name}.rs")
-            rc, out = sh(f"cargo test -p abasic-core --test {demo_name} --offline 2>&1 | tail -40", cwd=wt)
+            crate = "abasic-web" if "abasic_web" in open(f"{mutdir}/demo.rs").read() else "abasic-core"
+            os.makedirs(f"{wt}/{crate}/tests", exist_ok=True)
+            shutil.copy(f"{mutdir}/demo.rs", f"{wt}/{crate}/tests/{demo_name}.rs")
+            rc, out = sh(f"cargo test -p {crate} --test {demo_name} --offline 2>&1 | tail -40", cwd=wt,
+                         env=dict(ENV, RUST_LIB_BACKTRACE="0"))
             ok = "test result: ok" in out and "FAILED" not in out
-            os.remove(f"{wt}/abasic-core/tests/{demo_name}.rs")
+            os.remove(f"{wt}/{crate}/tests/{demo_name}.rs")
             return ok, out[-1500:]
         if demo in ("demo.sh", "demo.py"):
             interp = "bash" if demo == "demo.sh" else "python3"
-            rc, out = sh(f"{interp} {mutdir}/{demo} 2>&1 | tail -40; exit ${{PIPESTATUS[0]}}", cwd=wt)
+            rc, out = sh(f"{interp} {mutdir}/{demo} {wt} 2>&1 | tail -40; exit ${{PIPESTATUS[0]}}", cwd=wt)
             return rc == 0, out[-1500:]
         return None, "no demo"
 
